@@ -101,6 +101,14 @@ type fnObs struct {
 // where it stands (an id or href without it stays as it is and fails the acceptor's id forms).
 func observeFootnotes(out []byte, prefix string) fnObs {
 	o := observeFootnotesRaw(out)
+	if prefix == "?" {
+		// the prefix is a function of the document ("e-" or "o-"): the one the first item carries
+		// is taken off everywhere - every id and href of one document must carry the same
+		prefix = ""
+		if len(o.Items) > 0 && (strings.HasPrefix(o.Items[0], "e-") || strings.HasPrefix(o.Items[0], "o-")) {
+			prefix = o.Items[0][:2]
+		}
+	}
 	if prefix == "" {
 		return o
 	}
@@ -277,6 +285,21 @@ func c16Judge(md goldmark.Markdown, cs c16Case) (why string, obs fnObs, out []by
 	if len(bad) > 0 {
 		return bad[0].Why, obs, out
 	}
+	// accepted on an instance that has converted nothing else: once more after other documents on
+	// the same instance (documents with two and with three top-level blocks), as in the batch
+	for _, before := range []string{"x[^1]\n\n[^1]: n\n", "# h\n\nx[^1]\n\n[^1]: n\n"} {
+		if _, e := convertWith(md, []byte(before)); e != nil {
+			continue
+		}
+		o2, e2 := convertWith(md, []byte(cs.Doc))
+		if e2 != nil {
+			continue
+		}
+		obs2 := observeFootnotes(o2, cs.Config.FnPrefix)
+		if b2, _ := tlcJudge("TraceFootnote", "TraceFootnote.cfg", "footnotes.ndjson", []interface{}{obs2}); len(b2) > 0 {
+			return b2[0].Why, obs2, o2
+		}
+	}
 	return "ok", obs, out
 }
 
@@ -321,7 +344,8 @@ func runC16(c *Ctx) {
 		genCfg = "Footnote_gen4.cfg"
 	}
 	cfgs := []mdConfig{{Ext: "footnote"}, {Ext: "nocjk"}, {Ext: "all", XHTML: true}, {Ext: "nocjk", Unsafe: true, AutoID: true},
-		{Ext: "footnote", FnPrefix: "p"}, {Ext: "nocjk", FnPrefix: "article12-", XHTML: true}} // id prefixes of 1 and 10 bytes
+		{Ext: "footnote", FnPrefix: "p"}, {Ext: "nocjk", FnPrefix: "article12-", XHTML: true}, // id prefixes of 1 and 10 bytes
+		{Ext: "fnfunc", FnPrefix: "?"}} // a prefix function whose result differs from document to document
 	mds := make([]goldmark.Markdown, len(cfgs))
 	for i, cf := range cfgs {
 		mds[i] = cf.build()
